@@ -85,7 +85,7 @@ func formatFSM(format string, a []cty.Value) (string, error) {
 		verb.Width = 0
 	}
 	action width_num {
-		verb.Width = (10 * verb.Width) + (int(fc) - '0')
+		verb.Width = formatArgNumAppendDigit(verb.Width, fc)
 	}
 
 	action has_prec {
@@ -95,7 +95,7 @@ func formatFSM(format string, a []cty.Value) (string, error) {
 		verb.Prec = 0
 	}
 	action prec_num {
-		verb.Prec = (10 * verb.Prec) + (int(fc) - '0')
+		verb.Prec = formatArgNumAppendDigit(verb.Prec, fc)
 	}
 
 	action mode {
